@@ -2,16 +2,22 @@
    Model: the whole pipeline; yardstick: Spec/Spell.v (tree grammar, spellings, HTML of a tree),
    which does not use the parser model.
 
-   PARTIAL.  Kernel-checked: for every tree of the finite family (314 one-block documents
-   with containers nested two deep - quotes, tight bullet lists, fences/headings/breaks
-   inside them - under all 48 spelling choices; 4356 two-block documents under 6 choices;
-   adjacent same-marker lists excluded) the model renders the spelled text to exactly the
-   HTML written from the tree.  The property's full grammar (inline constructs, ordered and
-   loose lists, tables, HTML blocks, link definitions, lazy lines, indentation 0-3, depth 4,
-   ~40 blocks) is decided on the implementation by the generator oracle, the model being
-   tied to the implementation by X-doc on the generated texts. *)
+   UNBOUNDED on a fragment (C03_fragment_parses): for every tree - any number of blocks, any
+   depth - built from one-line plain paragraphs, block quotes and single-item lists (markers
+   + - * and 1-9 digits with . or ), padding 1-4), siblings separated by one blank line, a
+   list being the last of its siblings, the block tokenizer returns on the spelled text exactly
+   the pre-token tree written from the tree: kinds, nesting, the line every block starts on,
+   list attributes, loose flags.  wf_b is a computable well-formedness predicate (plain lines,
+   tab-free, no marker / thematic-break coincidence).  The proof composes the laws of C04, C05
+   and C14.  Beyond the fragment: PARTIAL.  Kernel-checked: for every tree of a finite family
+   (314 one-block documents with containers nested two deep - quotes, tight bullet lists,
+   fences/headings/breaks inside them - under all 48 spelling choices; 4356 two-block
+   documents under 6 choices; adjacent same-marker lists excluded) the model renders the
+   spelled text to exactly the HTML written from the tree.  The property's full grammar is
+   decided on the implementation by the generator oracle, the model tied to it by X-doc. *)
 From Coq Require Import ZArith List Bool.
-From Mistletoe Require Import Base.Sx Base.PyStr Model.HtmlRenderer Model.Parser Spec.Spell Proofs.SpellLaw Proofs.SpellP.
+From Mistletoe Require Import Base.Sx Base.PyStr Gen.GenConfig Model.Block Model.HtmlRenderer Model.Parser Spec.Spell Proofs.SpellLaw Proofs.SpellP
+     Proofs.ListLaw Spec.Fragment Proofs.FragmentP.
 Import ListNotations.
 Local Open Scope Z_scope.
 
@@ -30,3 +36,18 @@ Theorem C03_family_is_not_vacuous :
   length (filter in_family (docs1 ++ docs2)) = 2906%nat.
 Proof. exact a_composition. Qed.
 Print Assumptions C03_family_is_not_vacuous.
+
+Theorem C03_fragment_parses : forall types t f ln st,
+  fragment_config types = true -> wf_b t = true -> (depth t <= f)%nat ->
+  tokenize_block types (S f) (text_of (spell t)) ln st = ([pre_of ln t], false, st_after st t).
+Proof. exact fragment_tree_cfg. Qed.
+Print Assumptions C03_fragment_parses.
+
+Theorem C03_fragment_hypotheses :
+  forallb (fun c => fragment_config (cfg_block c)) [cfg_html; cfg_html_nohtml; cfg_latex; cfg_mathjax; cfg_default] = true /\
+  (let t1 := FItem (MBullet 45) 2 [FPara 97 $"b"; FQuote [FPara 99 $"d"; FItem (MOrdered $"12" 41) 1 [FPara 101 []]]; FPara 102 []] in
+   let t2 := FQuote [FQuote [FPara 97 []]; FPara 98 []; t1] in
+   wf_b t2 = true /\ depth t2 = 4%nat /\ length (spell t2) = 11%nat /\
+   text_of (spell t1) = [ $"-  ab" ++ [10]; [10]; $"   > cd" ++ [10]; $"   > " ++ [10]; $"   > 12) e" ++ [10]; [10]; $"   f" ++ [10] ]).
+Proof. split; [exact fragment_configs|exact fragment_instance]. Qed.
+Print Assumptions C03_fragment_hypotheses.
